@@ -144,7 +144,8 @@ def deductive(prop, tier, seed, reg, out):
         functions.append({"function": f"lemma.{lem.name}", "obligations": len(v.obligations)})
         trusted |= v.trusted_used
     t0 = time.time()
-    res = solve.solve_all(obs, timeout_ms=TIMEOUT_MS[tier])
+    prefer = {oid: "cvc5" for oid, b in load_baseline(prop).items() if str(b.get("by", "")).startswith("cvc5")}
+    res = solve.solve_all(obs, timeout_ms=TIMEOUT_MS[tier], prefer=prefer)
     out["solve_s"] = round(time.time() - t0, 2)
     out["functions"] = functions
     out["fstatus"] = fstatus
@@ -440,7 +441,7 @@ def run_property(prop, tier, seed, update_baseline=False):
 
     if update_baseline:
         bl = {ob.oid: {"discharged": res[ob.oid]["verdict"] == ob.expect, "vc": formula_hash(ob),
-                       "verdict": res[ob.oid]["verdict"]} for ob in obs}
+                       "verdict": res[ob.oid]["verdict"], "by": res[ob.oid].get("solver", "")} for ob in obs}
         os.makedirs(os.path.join(VERIF, "props", "baseline"), exist_ok=True)
         with open(os.path.join(VERIF, "props", "baseline", f"{prop}.json"), "w", encoding="utf-8") as f:
             json.dump(bl, f, indent=0, sort_keys=True)
